@@ -426,7 +426,18 @@ fn run_threads(plan: &Plan, out: &mut Outcome) -> (Vec<Vec<CallOut>>, Vec<CallOu
             .expect("spawn caller thread");
         handles.push(h);
     }
-    threads::coordinate();
+    let mut handles: Vec<Option<std::thread::JoinHandle<bool>>> = handles.into_iter().map(Some).collect();
+    let mut caller_panicked = false;
+    threads::coordinate(|t| {
+        // join the caller that just finished: its thread-local destructors run now, while
+        // every other caller is parked
+        if let Some(h) = handles.get_mut(t - 1).and_then(|h| h.take()) {
+            if !h.join().unwrap_or(false) {
+                caller_panicked = true;
+            }
+        }
+        state().ev(&format!("t{t} exited"));
+    });
     let stats = threads::stop();
     seams::set_mode(seams::Mode::Sequential);
     out.steps = stats.steps;
@@ -439,13 +450,16 @@ fn run_threads(plan: &Plan, out: &mut Outcome) -> (Vec<Vec<CallOut>>, Vec<CallOu
             drop(handles);
         }
         None => {
-            for h in handles {
+            for h in handles.into_iter().flatten() {
                 if !h.join().unwrap_or(false) {
-                    out.harness_error = Some(format!(
-                        "a caller thread panicked outside a call: {}",
-                        seams::last_panic()
-                    ));
+                    caller_panicked = true;
                 }
+            }
+            if caller_panicked {
+                out.harness_error = Some(format!(
+                    "a caller thread panicked outside a call: {}",
+                    seams::last_panic()
+                ));
             }
         }
     }
